@@ -537,6 +537,7 @@ def shrink(case):
 REVIEWED = {
     # (file, function, test) -> why it is not a test on an element's value
     ("operators/_pairwise.py", "on_next", "pair"): "pair is None or a 2-tuple (always truthy)",
+    ("observable/timer.py", "action", "count"): "count is the scheduler state of the periodic action, not an element",
 }
 
 
